@@ -1,4 +1,57 @@
-import ShexerModel.Rdf
+import ShexerModel.Lemmas.EndpointLemmas
+/-! # C15 — extraction from a SPARQL endpoint equals extraction from the same graph locally
+
+`Model/Endpoint.lean` is `EndpointSGraph` seen through its three kinds of request (outgoing triples of a node, incoming
+triples, instantiation triples), the per-node cache (`_subjects_tracked`, `_objects_tracked`, the local rdflib graph) and
+the neighbourhood fetch of `SGraph.yield_p_o_triples_of_target_nodes` / `yield_s_p_triples_of_target_nodes` at depth 1.
+The endpoint itself is a function of the query over a set of triples.
+
+* `cache_transparent` — for every disciplined run of requests (any length, any repetition) each answer given with the
+  cache has exactly the rows the endpoint gives; `disable_endpoint_cache` therefore cannot change a result;
+* `cache_never_asks_more` — the cached run sends at most as many queries as the uncached one, for **every** run;
+  `repeated_request_free` — a request made before costs nothing;
+* `fetch_is_disciplined` — the requests of the neighbourhood fetch satisfy the discipline the cache needs
+  (`stale_cache_witness` shows the discipline is not decorative: asking `classes s` then `po s` does return a
+  truncated neighbourhood — the latent hazard of sharing `_subjects_tracked` between the two kinds of fetch);
+* `neighbourhood_carries_every_figure` — for a selection among the target nodes, every count computed from the triples
+  the endpoint reader yields equals the count computed from the whole served graph, in both directions (so, by R1, so
+  does every figure of the shapes): depth 1 is enough, and the de-duplication of triples met in both directions is
+  what makes the inverse counts right (the `fix:` commit for the double count).
+
+What the model cannot exhibit: the SPARQL JSON result reader (`io/sparql/query.py`, which keeps no datatype), HTTP
+and retries; the search runs the real client code over an in-process SPARQL evaluator. -/
 namespace Shexer.C15
-theorem placeholder : True := trivial
+open Shexer Endpoint Spec
+
+theorem cache_transparent (instProp : String) (g : Graph) (hg : g.Nodup) (reqs : List Req) (hd : disciplined reqs) :
+    (runCached instProp g {} reqs).2.length = reqs.length ∧
+    ∀ i (h1 : i < (runCached instProp g {} reqs).2.length) (h2 : i < reqs.length),
+      ((runCached instProp g {} reqs).2[i]).Perm (remote instProp g reqs[i]) :=
+  cached_answers_perm instProp g hg reqs hd
+
+theorem cache_never_asks_more (instProp : String) (g : Graph) (reqs : List Req) :
+    (runCached instProp g {} reqs).1.queries ≤ (runUncached instProp g reqs).1 :=
+  cache_queries_le instProp g reqs
+
+theorem repeated_request_free (instProp : String) (g : Graph) (reqs : List Req) (r : Req) (h : r ∈ reqs) :
+    (runCached instProp g {} (reqs ++ [r])).1.queries = (runCached instProp g {} reqs).1.queries :=
+  repeated_request_is_free instProp g reqs r h
+
+theorem fetch_is_disciplined (g : Graph) (targets : List String) :
+    disciplined (directRequests g targets ++ inverseRequests g targets) :=
+  fetch_disciplined g targets
+
+theorem neighbourhood_carries_every_figure (cfg : Config) (sel : Selection) (g : Graph) (hg : g.Nodup) (targets : List String)
+    (hsel : ∀ n ∈ Dict.keys sel, n ∈ targets)
+    (c : String) (inv : Bool) (p ty : String) (card : Card) (hinv : inv = true → cfg.inverse = true) :
+    countOver cfg sel (fetched cfg.instProp g cfg.inverse targets) c inv p ty card = countOver cfg sel g c inv p ty card :=
+  fetched_suffices cfg sel g hg targets hsel c inv p ty card hinv
+
+/-- an undisciplined run: the class triples of `a` are fetched first, which marks `a` as tracked; the later request for
+all outgoing triples of `a` is answered from the local graph and misses `a p b` -/
+theorem stale_cache_witness :
+    let g : Graph := [⟨.iri "a", "T", .iri "C"⟩, ⟨.iri "a", "p", .iri "b"⟩]
+    ((runCached "T" g {} [.classes "a", .po "a"]).2.map List.length) = [1, 1] ∧ (remote "T" g (.po "a")).length = 2 := by
+  decide +kernel
+
 end Shexer.C15
